@@ -354,12 +354,14 @@ func families(prop string, t gfam.Tier) []*gfam.Grammar {
 		out = append(out, gfam.Kinds(t)...)
 		out = append(out, gfam.NegLookDeep(t)...)
 		out = append(out, gfam.CaseInsensitive(t)...)
+		out = append(out, gfam.EOFRef(t)...)
 	case "C02":
 		out = append(out, gfam.SubProd(t)...)
 		out = append(out, gfam.NegLookDeep(t)...)
 	case "C10":
 		out = append(out, gfam.Elision(t)...)
 		out = append(out, gfam.ElidedExplicit(t)...)
+		out = append(out, gfam.EOFRef(t)...)
 	case "C11":
 		out = append(out, gfam.Positions(t)...)
 	case "C13":
